@@ -42,6 +42,8 @@ RULES.update({f"C17.R3#{k[4:]}": "(shared with C01) " + v for k, v in C01.RULES.
 
 def run(ck: Checker, prog: Program, tier: str):
     ck.guard(_r1, ck, prog)
+    from .procmodel import taper_rule
+    ck.guard(taper_rule, ck, prog, "C17.R1")
     ck.guard(_r2, ck, prog)
     ck.guard(_r3, ck, prog)
     ck.guard(_r4, ck, prog)
@@ -191,7 +193,7 @@ def _r2(ck: Checker, prog: Program):
     old = C01.P
     C01.P = "C17.R3#"
     try:
-        C01._smoothing_call(ck, f, f.node.body, "spectra", "records[0].vt.dt_in_seconds", "psd smoothing")
+        C01._smoothing_call(ck, f, f.node.body, "spectra", "records[0].vt.dt_in_seconds", "psd smoothing", prog)
     finally:
         C01.P = old
 
